@@ -134,6 +134,21 @@ func checkC18(c *Ctx) {
 			s = c09Base(r)
 			descr = "numeric: " + c18Numeric(r, s)
 			tags["class"] = "numeric"
+		case k < 6 && chance(r, 6):
+			// a large document: many devices, each with a large annotation set of its own
+			// (every set within the limit): the files written for it exceed 1 MiB, or
+			// a power of two of kilobytes by a little
+			s = c09Base(r)
+			ndev := []int{5, 9, 12, 17}[r.Intn(4)]
+			per := []int{120 << 10, 250 << 10, 65536 - 200}[r.Intn(3)]
+			s.Devices = nil
+			for i := 0; i < ndev; i++ {
+				s.Devices = append(s.Devices, specs.Device{Name: fmt.Sprintf("dev%d", i),
+					Annotations:    map[string]string{fmt.Sprintf("big-%d", i): strings.Repeat("y", per)},
+					ContainerEdits: specs.ContainerEdits{Env: []string{fmt.Sprintf("D%d=1", i)}}})
+			}
+			descr = fmt.Sprintf("large document: %d devices with %d bytes of annotations each", ndev, per)
+			tags["class"] = "large-document"
 		case k < 6 && chance(r, 25):
 			// annotation maps near the size limit (256 KiB each): spec level and devices separately
 			s = c09Base(r)
